@@ -120,6 +120,9 @@ func runRefine(cfg refineCfg) {
 	select {
 	case <-done:
 	case <-time.After(20 * time.Second):
+		// the scenario did not finish by itself (e.g. the machine was suspended and every timer fired at once): what the harness
+		// does from here on is not part of the scenario; TraceRefine stops replaying this connection at this line
+		websocket.VerifEmit(c, "Aborted", "", 0, 0)
 	}
 	within(5*time.Second, func() { c.CloseNow() })
 	raw.Close()
